@@ -170,6 +170,12 @@ def install(M):
                 out.extend(MByte(ch, k, nb) for k in range(nb))
         return BytesIt(out)
     reg('core::str::<impl str>::bytes', str_bytes)
+    def str_is_ascii(I, s):
+        for cp, nb in as_str(s).chars():
+            if nb > 1:
+                return False
+        return True
+    reg('core::str::<impl str>::is_ascii', str_is_ascii)
     reg('core::str::<impl str>::is_char_boundary', lambda I, s, i: as_str(s).is_boundary(conc(I, i, 'index')))
     reg('String::as_str|core::str::<impl str>::as_str', lambda I, s: as_str(s))
 
@@ -566,6 +572,43 @@ def install(M):
             out.extend(as_str(e).chars())
         return OString(out)
     pat(r'^(alloc::)?slice::<impl \[.*\]>::join$', s_join)
+
+    def byteval(x):
+        from values import MByte
+        x = deref(x)
+        return x.value() if isinstance(x, MByte) else x
+
+    def char_from_u8(I, b):
+        return byteval(b)
+    reg('<char as From<u8>>::from', char_from_u8)
+    reg('<u32 as From<char>>::from|<u32 as From<u8>>::from|<usize as From<u8>>::from', lambda I, c: byteval(c))
+    reg('String::as_bytes', lambda I, s: M.exact['core::str::<impl str>::as_bytes'](I, s))
+
+    def bytes_eq(I, xs, ys):
+        if len(xs) != len(ys):
+            return False
+        for a, b in zip(xs, ys):
+            if not I.branch(v_eq(byteval(a), byteval(b))):
+                return False
+        return True
+
+    def sl_ends_with(I, s, t):
+        l, a, b = as_list(s)
+        m, c, d = as_list(t)
+        n = d - c
+        if n > b - a:
+            return False
+        return bytes_eq(I, l[b - n:b], m[c:d])
+    pat(r'^core::slice::<impl \[.*\]>::ends_with$', sl_ends_with)
+
+    def sl_starts_with(I, s, t):
+        l, a, b = as_list(s)
+        m, c, d = as_list(t)
+        n = d - c
+        if n > b - a:
+            return False
+        return bytes_eq(I, l[a:a + n], m[c:d])
+    pat(r'^core::slice::<impl \[.*\]>::starts_with$', sl_starts_with)
 
     # ---------------- mem
     def mem_replace(I, p, v):
